@@ -100,6 +100,35 @@ def count_lines(fn):
     return n[0], res
 
 
+def bracket_points(fn):
+    """Run `fn()` alone and return the indexes (in library line events) at which it is *inside* a bracket: the event right
+    after a `with ...:` line, or after a line that swaps a module- or process-wide setting (heuristic on the source text).
+    Such points are where a preemption is most likely to expose state shared between threads."""
+    import linecache
+    points, n, prev = [], [0], [None]
+
+    def local(frame, event, arg):
+        if event == "line":
+            n[0] += 1
+            src = linecache.getline(frame.f_code.co_filename, frame.f_lineno).strip()
+            if prev[0] is not None and (prev[0].startswith("with ") or "catch_warnings" in prev[0] or "simplefilter" in prev[0] or "global " in prev[0]):
+                points.append(n[0] - 1)
+            prev[0] = src
+        return local
+
+    def tracer(frame, event, arg):
+        if event == "call" and frame.f_code.co_filename.startswith(LIB_DIR):
+            return local
+        return None
+    old = sys.gettrace()
+    sys.settrace(tracer)
+    try:
+        fn()
+    finally:
+        sys.settrace(old)
+    return points
+
+
 def run_scheduled(workers, segments):
     """workers: list of zero-argument callables; returns (results, scheduler).  results[i] is the
     return value of workers[i] or the exception it raised."""
